@@ -48,8 +48,12 @@ def gen_history(rng, name, n_ops, dup):
             ops.append({"op": "batch_update", "id": idv, "old": ks(), "new": ks()})
         elif r < 0.79:
             ops.append({"op": "compact"})
-        elif r < 0.95:
+        elif r < 0.93:
             ops.append(_flush(rng))
+        elif r < 0.96:
+            # restart from a pre-manifest (legacy) layout of the fully flushed state
+            ops.append({"op": "flush"})
+            ops.append({"op": "legacy"})
         else:
             ops.append({"op": "reload"})
     ops.append({"op": "flush"})
@@ -80,6 +84,12 @@ def fixed_histories():
                         "ops": base + mid + [{"op": "flush", "deletes": d, "crash_in_deletes": True}] + tail})
             out.append({"name": f"sweep-{variant}-leftover-{d}", "nk": NK, "ni": NI, "dup": True,
                         "ops": base + mid + [{"op": "flush", "deletes": d}] + tail})
+    # legacy (manifest-less) layout: restart from it, then every kind of flush on top of it
+    for variant, mid in (("grow", grow), ("compact", grow + [{"op": "compact"}])):
+        for fl in ({"op": "flush"}, {"op": "flush", "mode": "crash_after", "at": 0}, {"op": "flush", "mode": "crash_before", "at": 1},
+                   {"op": "flush", "deletes": 1, "crash_in_deletes": True}, {"op": "flush", "mode": "fail_after", "at": 0}):
+            out.append({"name": f"legacy-{variant}-{fl.get('mode', 'clean')}-{fl.get('deletes', '')}", "nk": NK, "ni": NI,
+                        "dup": True, "ops": base + [{"op": "legacy"}] + mid + [fl] + tail})
     # uniqueness
     out.append({"name": "unique", "nk": NK, "ni": NI, "dup": False, "ops": [
         {"op": "insert", "id": 1, "k": 1}, {"op": "insert", "id": 2, "k": 1}, {"op": "insert", "id": 1, "k": 1},
@@ -320,7 +330,8 @@ def run(tier):
     vlib.write_evidence(PROP, tier, "model_checking", cov, time.time() - t0, n_viol, assumptions=[
         "flushes are not concurrent with mutations or compaction (the crate's documented contract)",
         "a bucket / metadata callback write is atomic; a failing metadata callback means the manifest was NOT stored",
-        "legacy manifest-less layouts are exercised by the repository's own tests only",
+        "legacy manifest-less layouts are exercised as consistent conversions of a fully flushed state (no stale "
+        "duplicates or tombstones left by the pre-manifest protocol)",
     ])
     vlib.cleanup(wd)
     return n_viol
